@@ -74,6 +74,10 @@ def make_table(nch, idlen, resmode, serial0, icodes, models, apr, extras=False):
 
 
 def cases(tier):
+    # the slow tables first, so that they overlap with the rest of the family
+    yield dict(big="interleaved-99990-atoms-12-blocks", fmt="mmCIF")
+    if tier != "quick":
+        yield dict(big="interleaved-99987-atoms-12-blocks", fmt="mmCIF")
     for nch, idlen, resmode, serial0, icodes, models, apr in itertools.product((1, 2, 3, 62, 63), (1, 2, 4, "mix-first", "mix-last"), ("small", "9999", "10000", "12345", "negative"),
                                                                              (1, 99990, 100000), (False, True), (1, 2), (1, 2)):
       for extras in (False, True):
@@ -94,7 +98,44 @@ def cases(tier):
         yield dict(big="atoms-99998-plus-2-chains", fmt="mmCIF")
 
 
+def composite(offence, relation, water=False):
+    """Part A (within the limits) followed by part B (exceeding one limit), B being further chains of the same model or a second model.
+    Returns (table, number of atoms of part A)."""
+    A = make_table(2, 1, "small", 1, False, 1, 2)
+    if offence == "chain":
+        B = make_table(2, 2, "small", len(A) + 1, False, 1, 2)
+    elif offence == "resseq":
+        B = make_table(2, 1, "12345", len(A) + 1, False, 1, 2)
+    else:
+        B = make_table(2, 1, "small", 100000, False, 1, 2)
+    for b in B:
+        if relation == "model":
+            b["model"] = 2
+        elif len(b["chain"]) == 1:
+            b["chain"] = {"A": "C", "B": "D"}[b["chain"]]
+        b["y"] = "%.3f" % (float(b["y"]) + 50.0)
+        if water:
+            b["resname"] = "HOH"
+            b["record"] = "HETATM"
+            b["name"] = "O" if b["name"] == "P" else "O2"
+            b["element"] = "O"
+    return A + B, len(A)
+
+
+def slice_cases(tier):
+    """Row subsets of a parsed table (what splitter/unifier hand to fit_to_pdb): the part within the limits must be recognised as fitting and come
+    back unchanged although the parent table exceeded a limit; the offending part must be renamed properly on its own."""
+    for offence in ("chain", "resseq", "serial"):
+        for relation in ("chains", "model"):
+            for how in ("mask", "iloc", "groupby"):
+                for part in ("A", "B"):
+                    yield dict(slice=how, offence=offence, relation=relation, part=part, fmt="mmCIF")
+
+
 def tool_cases(tier):
+    for offence in ("chain", "resseq", "serial"):
+        yield dict(tool="splitter", composite=[offence, "model", False], fmt="mmCIF")
+        yield dict(tool="unifier", composite=[offence, "chains", True], fmt="mmCIF")
     """splitter.main / unifier.main with -f PDB on mmCIF input that may need fitting (the tools named in the property's observe_at)."""
     for nch, idlen, resmode, serial0, icodes, models in itertools.product((1, 2, 3), (1, 2, 4, "mix-first", "mix-last"), ("small", "9999", "10000", "12345", "negative"),
                                                                           (1, 99990, 100000), (False, True), (1, 2)):
@@ -117,7 +158,7 @@ def tool_cases(tier):
 
 
 def families(tier):
-    return [("tables", lambda: cases(tier), 1), ("tools", lambda: tool_cases(tier), 1)]
+    return [("tables", lambda: cases(tier), 1), ("slices", lambda: slice_cases(tier), 1), ("tools", lambda: tool_cases(tier), 1)]
 
 
 def big_table(kind):
@@ -137,6 +178,13 @@ def big_table(kind):
     elif kind == "chain-9999-residues-long-id":
         for i in range(9999):
             t.append(enumio.atom(i + 1, "P", "G", "AA", i + 5000, "1.000", "2.000", "3.000", element="P"))
+    elif kind.startswith("interleaved-"):
+        # two long-named chains listed in alternating blocks: every block boundary costs the writer a TER serial
+        natoms, blocks = int(kind.split("-")[1]), int(kind.split("-")[3])
+        per = natoms // blocks
+        for i in range(natoms):
+            b = min(i // per, blocks - 1)
+            t.append(enumio.atom(i + 1, "P", "G", ["AA", "BB"][b % 2], i % 9000 + 1, "1.000", "2.000", "3.000", element="P"))
     elif kind == "atoms-100001":
         for i in range(100001):
             t.append(enumio.atom(i + 1, "P", "G", "A", i % 9000 + 1, "1.000", "2.000", "3.000", element="P"))
@@ -160,6 +208,12 @@ def ref_feasible(t):
         perchain[a["chain"]].add((a["resseq"], a["icode"]))
     if len(t) + len(chains) > 99999:
         return False, "atoms+chains"
+    # every chain run needs a TER record with its own serial: with interleaved chains there are more runs than chains
+    runs = sum(1 for k, a in enumerate(t) if k == 0 or (a["model"], a["chain"]) != (t[k - 1]["model"], t[k - 1]["chain"]))
+    if len(t) + runs > 100000:
+        return False, "atoms+chain-runs"
+    if len(t) + runs == 100000 and runs > len(chains):
+        return None, "atoms+chain-runs==100000"  # only the closing TER would not fit: the property does not decide this
     if len(chains) > 62:
         return False, "chains"
     if max(len(v) for v in perchain.values()) > 9999:
@@ -175,8 +229,13 @@ def run_case(case):
 
     from mc.props.c09 import df_view
 
+    nA = None
     if "big" in case:
         t = big_table(case["big"])
+    elif "composite" in case:
+        t, nA = composite(*case["composite"])
+    elif "slice" in case:
+        t, nA = composite(case["offence"], case["relation"])
     else:
         t = make_table(case["nch"], case["idlen"], case["resmode"], case["serial0"], case["icodes"], case["models"], case["apr"], case.get("extras", False))
     out = []
@@ -189,8 +248,29 @@ def run_case(case):
     if r[0] == "exc":
         return dict(nontrivial=True, outcome="parse-exc", violations=[viol("parse:" + r[1], "parser raised " + r[2])])
     df = r[1]
+    if "slice" in case:
+        # the harness takes the row subset the way the tools do; attrs are re-set as splitter.main does
+        fmt_attr = df.attrs.get("format")
+        if case["slice"] == "iloc":
+            df = df.iloc[:nA] if case["part"] == "A" else df.iloc[nA:]
+        elif case["slice"] == "mask":
+            import numpy as np
+            mask = np.arange(len(df)) < nA
+            df = df[mask if case["part"] == "A" else ~mask]
+        else:
+            col = "pdbx_PDB_model_num" if case["relation"] == "model" else "auth_asym_id"
+            groups = [g.copy() for _, g in df.groupby(col, observed=True, sort=False)]
+            if case["relation"] == "model":
+                df = groups[0] if case["part"] == "A" else groups[1]
+            else:
+                import pandas as pd
+                df = pd.concat(groups[:2] if case["part"] == "A" else groups[2:])
+        df.attrs["format"] = fmt_attr
+        t = t[:nA] if case["part"] == "A" else t[nA:]
     fits = ref_fits(t)
     feasible, why = ref_feasible(t)
+    if feasible is None:
+        return dict(nontrivial=False, outcome="undecided:" + why, violations=[], undecided=True)
     c = observe(parser_v2.can_write_pdb, df)
     if c[0] == "exc":
         out.append(viol("can_write_pdb:" + c[1], "can_write_pdb raised " + c[2]))
@@ -283,7 +363,7 @@ def check_fitted(t, fitted, parser_v2, df_view, out):
         out.append(viol("fitted:pdb-roundtrip", "written and re-read fitted table differs", None, None))
 
 
-def check_renamed(want, got, out, prefix, ordered):
+def check_renamed(want, got, out, prefix, ordered, identity=False):
     """want/got: normalised views. got must be want up to serial renumbering and a one-to-one, grouping-preserving chain/residue renaming, within PDB limits."""
     if len(got) != len(want):
         out.append(viol(prefix + ":atom-count", "output has %d atoms, input %d" % (len(got), len(want))))
@@ -315,6 +395,9 @@ def check_renamed(want, got, out, prefix, ordered):
             return
         if gr is None or gr > 9999:
             out.append(viol(prefix + ":resseq-limit", "residue number %r outside PDB limits" % gr))
+            return
+        if identity and (gc, gr, gi_) != (w[5], w[6], w[7]):
+            out.append(viol(prefix + ":fitting-table-renamed", "the table is within the limits but %r was written as %r" % ((w[5], w[6], w[7]), (gc, gr, gi_))))
             return
         if chain_map.setdefault(w[5], gc) != gc:
             out.append(viol(prefix + ":chain-grouping", "chain %r mapped to two ids" % w[5]))
@@ -366,6 +449,8 @@ def run_tool(case, t, parser_v2, df_view):
         sys.argv = old
     if r[0] == "exc" and not r[1].startswith("exception:SystemExit"):
         return dict(nontrivial=True, outcome=tool + ":raises", violations=[viol("%s:%s" % (tool, r[1]), "%s.main raised %s" % (tool, r[2]))])
+    if tool == "unifier":
+        t = [a for a in t if a["resname"] in ("A", "C", "G", "U")]  # the unifier keeps standard nucleotides only
     models = []
     for a in t:
         if a["model"] not in models:
@@ -402,7 +487,7 @@ def run_tool(case, t, parser_v2, df_view):
             # the unifier writes one structure without MODEL records
             want = [w[:15] + (1,) for w in want]
             got = [g[:15] + (1,) for g in got]
-        check_renamed(want, got, out, tool + ":out", ordered=(tool == "splitter"))
+        check_renamed(want, got, out, tool + ":out", ordered=(tool == "splitter"), identity=fits)
         atoms, problems, events = enumio.read_pdb_layout(txt)
         problems += enumio.check_pdb_structure(events)
         if problems:
